@@ -42,6 +42,7 @@ def run(ctx, eng):
     for fi in entries:
         reach |= c17.reachable_from(eng, fi.qual)
     c17.require_summaries(ctx, eng, reach)
+    cm.attrs_initialised(ctx, eng)
     for fi in entries:
         esc = eng.R.of(fi.qual)
         bad = []
@@ -131,6 +132,41 @@ def run(ctx, eng):
                                   for p in paths))
     ctx.assume('integer arguments fit their wire width; arguments have the '
                'documented types')
+    # a call on a stream that is gone says so: no public method swallows
+    # the lookup's refusal (acknowledge_received_data alone ignores a
+    # forgotten stream, and then only the closed kind)
+    n_lookup = 0
+    for fi in entries:
+        paths = eng.I.run(fi)
+        swallowed = set()
+        looked = False
+        for p in paths:
+            if cm.calls_to(p, '_get_stream_by_id'):
+                looked = True
+            got = [e for e in p.events if e.kind == 'catch' and
+                   e.frame == fi.qual and set(e.names) &
+                   {'NoSuchStreamError', 'StreamClosedError'}]
+            if not got:
+                continue
+            names = set(got[0].names) & {'NoSuchStreamError',
+                                         'StreamClosedError'}
+            if fi.name == 'acknowledge_received_data' and \
+                    names == {'StreamClosedError'}:
+                continue
+            if p.exit == 'raise' and (p.exc.get('reraise') or
+                                      set(p.exc['names']) <= names):
+                continue
+            swallowed |= names
+        if not looked:
+            continue
+        n_lookup += 1
+        ctx.ob('ESC.lookup', fi.qual, 'a stream that is gone is reported',
+               not swallowed, 'catches %s from the stream lookup and goes on'
+               % sorted(swallowed) if swallowed else 'the lookup\'s '
+               'NoSuchStreamError / StreamClosedError leaves the call',
+               node=fi.node)
+    ctx.record('entries_with_stream_lookup', n_lookup)
+    ctx.floor('entries_with_stream_lookup', 6)
     cm.include(ctx, eng, 'C02',
                lambda o: o.rule == 'COH.frame-size' or (
                    o.rule == 'COH.apply-map' and 'MAX_FRAME_SIZE' in o.desc),
